@@ -113,10 +113,37 @@ def main():
                     if self.current == me:
                         self._next()
 
+    import shutil
+    import tempfile
+    from pathlib import Path
+    wd = os.environ.get("CPV_WORKDIR") or None
+    if wd:
+        os.makedirs(wd, exist_ok=True)
+    scratch = tempfile.mkdtemp(prefix="c17_", dir=wd)
+
+    def do_parse_path(ti, sel, slot):
+        # the text is written to one of a few fixed paths (overwriting what was there) with a fixed
+        # modification time, as an archive extraction or rsync -t would leave it, and read by path
+        path = os.path.join(scratch, f"slot{slot}.chart")
+        with open(path, "w", encoding="utf-8", newline="") as f:
+            f.write(texts[ti])
+        os.utime(path, ns=(1_600_000_000_000_000_000, 1_600_000_000_000_000_000))
+        try:
+            chart = Chart.from_filepath(Path(path), want_tracks=sel_pairs(sel))
+        except Exception as e:  # noqa: BLE001
+            return {"ok": False, "exc": [type(e).__name__, str(e)]}, None
+        order = [[i.name, [d.name for d in inner]] for i, inner in chart.instrument_tracks.items()]
+        rendered = [str(chart), repr(chart)]
+        return {"ok": True, "obs": observation(chart), "order": order,
+                "rendered": [len(rendered[0]), len(rendered[1]), rendered[0][:4000], rendered[1][:4000]]}, chart
+
     out = []
     for op in job["ops"]:
         if op[0] == "parse":
             res, chart = do_parse(op[1], op[2])
+            out.append(finish(res, chart, op[1], op[2]))
+        elif op[0] == "parse_path":
+            res, chart = do_parse_path(op[1], op[2], op[3])
             out.append(finish(res, chart, op[1], op[2]))
         elif op[0] == "threads":
             items, mode, schedule = op[1], op[2], op[3]
@@ -152,6 +179,7 @@ def main():
                                     for i in range(n)], "stats": stats})
         else:
             raise SystemExit(f"unknown op {op}")
+    shutil.rmtree(scratch, ignore_errors=True)
     json.dump({"results": out}, sys.stdout)
 
 
